@@ -18,6 +18,15 @@ def agreePrim (p : Prim) (S : SType) : Bool :=
   | .anycast, .anycast => true
   | .msgAddress, .msgAddress => true
   | .payloadV1toV4, .payloadList => true
+  | .w5Actions, .outList => true
+  | .accountStatus, .enum cs =>
+    cs == [(Prim.s_uninit, [false, false]), (Prim.s_frozen, [false, true]), (Prim.s_active, [true, false]),
+      (Prim.s_nonexist, [true, true])]
+  | .accStatusChange, .enum cs =>
+    cs == [(Prim.s_acst_unchanged, [false]), (Prim.s_acst_frozen, [true, false]), (Prim.s_acst_deleted, [true, true])]
+  | .computeSkipReason, .enum cs =>
+    cs == [(Prim.s_cskip_no_state, [false, false]), (Prim.s_cskip_bad_state, [false, true]),
+      (Prim.s_cskip_no_gas, [true, false]), (Prim.s_cskip_suspended, [true, true, false])]
   | _, _ => false
 
 def tagAgrees (tg : Tag) (bits : List Bool) : Bool := tg.ok && natToBits tg.len tg.val == bits
@@ -74,8 +83,14 @@ def agreeb (env : Env) (senv : SEnv) : Nat → Ty → SType → Bool
       | _ => false)
     | .refT t => agreeRef env senv f t S
     | .prim p => agreePrim p S
-    | .dictE _ => (match S with
-      | .hashmapE => true
+    | .highload => (match S with
+      | .highloadDict => true
+      | _ => false)
+    | .chain e => (match S with
+      | .chainOf s => agreeb env senv f e s
+      | _ => false)
+    | .dictE k t => (match S with
+      | .hashmapE n sk st => keyWidth k == some n && agreeb env senv f k sk && agreeb env senv f t st
       | _ => false)
     | _ => false
 /-- the content `t` of a referenced cell against `^S` / `^Cell` -/
